@@ -150,28 +150,35 @@ Print Assumptions C04_shapes_meet_aabb_overlap.
 Example C04_sphere_nonvacuous :
   aabb_exact (sphere_set (V 1 2 3) 2) (fst (sphere_aabb (V 1 2 3) 2)) (snd (sphere_aabb (V 1 2 3) 2)).
 Proof. apply C04_sphere; lra. Qed.
+Print Assumptions C04_sphere_nonvacuous.
 Example C04_box_nonvacuous :
   exists lo hi, box_aabb T345z (V 2 4 6) = Some (lo, hi) /\ aabb_exact (box_set T345z (V 2 4 6)) lo hi.
 Proof. apply C04_box; cbn [vx vy vz]; lra. Qed.
+Print Assumptions C04_box_nonvacuous.
 (** a tilted axis (row entries 4/5, 3/5): the sqrt(1 - a^2) terms are 3/5, 4/5, not 0 or 1 *)
 Example C04_cylinder_nonvacuous :
   aabb_exact (cylinder_set T345x 2 4) (fst (cylinder_aabb T345x 2 4)) (snd (cylinder_aabb T345x 2 4)).
 Proof. apply C04_cylinder; [exact T345x_rotation|lra|lra]. Qed.
+Print Assumptions C04_cylinder_nonvacuous.
 Example C04_capsule_nonvacuous :
   aabb_exact (capsule_set T345x (/ 2) 3) (fst (capsule_aabb T345x (/ 2) 3)) (snd (capsule_aabb T345x (/ 2) 3)).
 Proof. apply C04_capsule; [exact T345x_rotation|lra|lra]. Qed.
+Print Assumptions C04_capsule_nonvacuous.
 Example C04_cone_nonvacuous :
   aabb_exact (cone_set T345x 1 2) (fst (cone_aabb T345x 1 2)) (snd (cone_aabb T345x 1 2)).
 Proof. apply C04_cone; [exact T345x_rotation|lra|lra]. Qed.
+Print Assumptions C04_cone_nonvacuous.
 Example C04_disk_nonvacuous :
   aabb_exact (disk_set (V 1 2 3) 2 (V 0 (3 / 5) (4 / 5)))
              (fst (disk_aabb (V 1 2 3) 2 (V 0 (3 / 5) (4 / 5)))) (snd (disk_aabb (V 1 2 3) 2 (V 0 (3 / 5) (4 / 5)))).
 Proof. apply C04_disk; [lra|vunfold; field]. Qed.
+Print Assumptions C04_disk_nonvacuous.
 Example C04_ellipse_nonvacuous :
   aabb_exact (ellipse_set (V 1 2 3) (V (3 / 5) (4 / 5) 0) (V 0 0 1) 2 3)
              (fst (ellipse_aabb (V 1 2 3) (V (3 / 5) (4 / 5) 0) (V 0 0 1) 2 3))
              (snd (ellipse_aabb (V 1 2 3) (V (3 / 5) (4 / 5) 0) (V 0 0 1) 2 3)).
 Proof. apply C04_ellipse; lra. Qed.
+Print Assumptions C04_ellipse_nonvacuous.
 (** an axis-aligned pose that is not the identity: x -> y, y -> -x *)
 Example C04_ellipsoid_axis_aligned_nonvacuous :
   aabb_exact (ellipsoid_set (P (M (V 0 (-1) 0) (V 1 0 0) (V 0 0 1)) (V 1 2 3)) (V 1 2 3))
@@ -182,6 +189,7 @@ Proof.
   exists 1%nat, 0%nat, 2%nat, (-1), 1, 1. unfold perm3, sgn1. cbn [rot].
   repeat split; auto; try tauto. cbn [eR]. vunfold. repeat f_equal; ring.
 Qed.
+Print Assumptions C04_ellipsoid_axis_aligned_nonvacuous.
 Example C04_hull_nonvacuous :
   exists lo hi, axis_aligned_bounding_box [V 1 0 0; V 0 2 0; V 0 0 3; V (-1) (-1) (-1)] = Some (lo, hi) /\
     aabb_exact (conv_hull [V 1 0 0; V 0 2 0; V 0 0 3; V (-1) (-1) (-1)]) lo hi.
@@ -189,6 +197,7 @@ Proof.
   destruct (C04_hull_total [V 1 0 0; V 0 2 0; V 0 0 3; V (-1) (-1) (-1)]) as [[lo hi] E]; [discriminate|].
   exists lo, hi. split; [exact E|apply C04_hull; exact E].
 Qed.
+Print Assumptions C04_hull_nonvacuous.
 Example C04_mesh_nonvacuous :
   exists lo hi, mesh_aabb T345z [V 1 0 0; V 0 2 0; V 0 0 3; V (-1) (-1) (-1)] = Some (lo, hi) /\
     aabb_exact (hull_set T345z [V 1 0 0; V 0 2 0; V 0 0 3; V (-1) (-1) (-1)]) lo hi.
@@ -196,13 +205,16 @@ Proof.
   destruct (mesh_aabb T345z [V 1 0 0; V 0 2 0; V 0 0 3; V (-1) (-1) (-1)]) as [[lo hi]|] eqn:E; [|discriminate].
   exists lo, hi. split; [reflexivity|apply C04_mesh; exact E].
 Qed.
+Print Assumptions C04_mesh_nonvacuous.
 Example C04_margin_nonvacuous :
   aabb_exact (inflate (sphere_set (V 1 2 3) 2) (/ 2))
     (fst (margin_aabb (sphere_aabb (V 1 2 3) 2) (/ 2))) (snd (margin_aabb (sphere_aabb (V 1 2 3) 2) (/ 2))).
 Proof. apply (C04_margin (sphere_set (V 1 2 3) 2)); [lra|apply C04_sphere; lra]. Qed.
+Print Assumptions C04_margin_nonvacuous.
 Example C04_rigid_body_nonvacuous :
   exists lo hi, rigid_body_aabb T345z [V 0 0 0; V 1 0 0; V 0 1 0; V 0 0 1; V 1 1 1] [(0, 1, 2, 3); (1, 2, 3, 4)]%nat = Some (lo, hi).
 Proof. eexists. eexists. reflexivity. Qed.
+Print Assumptions C04_rigid_body_nonvacuous.
 (** two balls that meet, hence overlapping boxes *)
 Example C04_shapes_meet_nonvacuous :
   aabb_overlap (fst (sphere_aabb (V 0 0 0) 1)) (snd (sphere_aabb (V 0 0 0) 1))
@@ -212,6 +224,7 @@ Proof.
     try (apply C04_sphere; lra).
   exists (V 1 0 0). split; apply sphere_set_iff; vunfold; cbn [vx vy vz]; lra.
 Qed.
+Print Assumptions C04_shapes_meet_nonvacuous.
 
 (** ** per-input verdicts: soundness of the certificate checker the harness evaluates with
        vm_compute on the exact rationals of the implementation's box ([sem S] is the point set
